@@ -19,8 +19,9 @@ SPEC = {
         'and the guard of ret.pop(), evaluated over a finite abstraction of list shapes (all lists over {empty, non-empty '
         'segment} up to length 3), is true exactly when ret is non-empty and is not the bare root marker [""] (never pops on '
         'empty, never un-roots, always pops otherwise). Not decided: agreement with RFC 3986 5.2 as a whole (trailing-slash and '
-        'merge corner cases), idempotence of normalize, chaining.'),
-    'decided': ['base not modified', 'result owns fresh state', 'normalize on every return, unconditional dot removal',
+        'merge corner cases), idempotence of normalize, chaining.'
+        ' T25.inherit: scheme/host/port/username/password of a relative result are each `ref.X or base.X`. T19p: from_parts reads every part.'),
+    'decided': ['authority inheritance siblings', 'from_parts reads every part', 'base not modified', 'result owns fresh state', 'normalize on every return, unconditional dot removal',
                 'query/path inheritance control dependence', 'dot-free appends', 'pop guard == non-empty and not bare root'],
     'declined': ['full RFC 3986 section 5.2 agreement', 'normalize idempotence', 'chained navigation'],
     'trusted_base': [], 'assumptions': [], 'exhaustive': True,
